@@ -122,7 +122,7 @@ func luaCall(fn string, args []string) string {
 }
 
 func checkC18Seq(job *Job, res *Result) {
-	res.Rule = "SEQ: every catalogue command x shape, wrapped in tile38.call / tile38.pcall; shapes that modify the internal state through EVAL (self-calibrating) must be reproduced by a restart after EVAL / EVALNA / EVALSHA, and must be refused through EVALRO and EVALROSHA with an error and leave the state unchanged; distinct = distinct (command, modifies?, refused?) classes"
+	res.Rule = "SEQ: every catalogue command x shape, wrapped in tile38.call / tile38.pcall; shapes that modify the internal state through EVAL (self-calibrating) must be reproduced by a restart after EVAL / EVALNA / EVALSHA, and must be refused through EVALRO and EVALROSHA (also when the script first assigns another flavour to the EVAL_CMD global) with an error and leave the state unchanged; distinct = distinct (command, modifies?, refused?) classes"
 	repo, _ := job.Params["repo"].(string)
 	names, _ := catalogueNames(repo)
 	cat := catalogue()
@@ -192,12 +192,18 @@ func checkC18Seq(job *Job, res *Result) {
 					res.Validated++
 				}
 				// 2. the same through the read-only variants
-				for _, variant := range []string{"EVALRO", "EVALROSHA"} {
+				for _, variant := range []string{"EVALRO", "EVALROSHA", "EVALRO+EVAL_CMD=eval", "EVALRO+EVAL_CMD=evalna", "EVALROSHA+EVAL_CMD=evalsha"} {
+					variant, tamper := variant, ""
+					if i := strings.Index(variant, "+EVAL_CMD="); i >= 0 {
+						// the script assigns to the global the host uses to tell the flavours apart
+						tamper = "EVAL_CMD='" + variant[i+10:] + "'; "
+						variant = variant[:i]
+					}
 					x := runExec(job, freezeAllBut(), func(x *Exec) {
 						in := x.Start("L", x.dir+"/L", 9001, nil)
 						c := x.Dial(in.Addr)
 						sha := catSetup(c)
-						script := luaCall(fn, catSubst(shape, sha))
+						script := tamper + luaCall(fn, catSubst(shape, sha))
 						var rep rv
 						before, _ := internalDump(in.S)
 						if variant == "EVALRO" {
@@ -212,7 +218,7 @@ func checkC18Seq(job *Job, res *Result) {
 						refused := rep.IsErr() || strings.Contains(rep.String(), "read only") || strings.Contains(rep.String(), "ERR")
 						if before != after {
 							res.Violate(fmt.Sprintf("C18/readonly-script-modified-data:%s:%s", strings.ToLower(name), strings.ToLower(variant)),
-								fmt.Sprintf("%s with tile38.%s(%v) changed the dataset (reply %s)", variant, fn, shape, vclip(rep.String(), 120)), map[string]any{"cmd": shape, "variant": variant, "fn": fn})
+								fmt.Sprintf("%s with %stile38.%s(%v) changed the dataset (reply %s)", variant, tamper, fn, shape, vclip(rep.String(), 120)), map[string]any{"cmd": shape, "variant": variant, "fn": fn, "tamper": tamper})
 						} else if !refused && fn == "call" {
 							res.Violate(fmt.Sprintf("C18/readonly-script-not-refused:%s:%s:shape%d", strings.ToLower(name), strings.ToLower(variant), si),
 								fmt.Sprintf("%s with tile38.call(%v) was answered %s instead of an error", variant, shape, vclip(rep.String(), 120)), map[string]any{"cmd": shape, "variant": variant})
